@@ -44,6 +44,8 @@ CLAIMS = {
          "byte-level behaviour of Eigen::Map (alignment assumptions, vectorised loads) is runtime; the ASan build is run by the thorough tier"),
  "C11": ("proof", "Index arithmetic proved for EVERY list of element sizes: compute_indices (transcribed from the template recursion) is the exclusive prefix sum, consecutive offsets differ by the element size, the slices tile the flat vector (concatenated in order they give it back, with the element lengths) - so element<i>() aliases exactly the i-th element. The model's bundle members are defined as slice / element model / place at offset, and are tied bit-for-bit to the C++ Bundle on 11 layouts (every modelled group first, middle, last, repeated, single; Dim != DoF != RepSize != matrix size) for exp, log, compose, inverse, between, plus/minus, act, adj, hat, vee, Jacobians, generators, inner weights, transform, element views, algorithms; the oracle compares every bundle member with the standalone C++ element members placed at their offsets and demands exact zeros off the diagonal blocks.",
          "layouts in C++ are necessarily finite (11 instantiated); bundles containing SGal3 are not modelled; Random() is checked for validity only"),
+ "C05": ("proof", "Jacobian = derivative stated with first-order dual numbers over an arbitrary ordered field: the SAME model code is evaluated at Dual K and f(X (+) eps d) = f(X) (+) eps (J d) is proved exactly, where exp(eps d) is what the model's own exp returns on an infinitesimal tangent. Proved: SE2 compose (both arguments), inverse, act (element and point); SO3 compose (both), inverse, act (point) - for every valid input, both quaternion hemispheres. Every Jacobian-returning operation x every mask x every group is tied bit-for-bit to the code; the oracle compares each Jacobian with a 60-digit central difference of the reference maps (step 1e-20) over rotation magnitudes 0..pi-1e-6 independently of translation size.",
+         "Jacobians of exp/log (the rjac/rjacinv closed forms) and of the derived operations, and the composite groups, are covered by correspondence + oracle, theorems in progress; uniform 1e-6 floating accuracy is measured"),
 }
 
 checks = []
